@@ -218,6 +218,33 @@ func coordsAt(flat []float64, stride, i int) geom.Coord {
 // exec runs one call and returns a canonical rendering of its result. Calls
 // whose documented preconditions the drawn arguments do not meet return "n/a".
 func exec(pool []*item, c Call) string {
+	r, _ := execKeep(pool, c)
+	return r
+}
+
+// execKeep is exec that also returns a function re-rendering the retained
+// result object (nil when the result is a plain value): a result must not
+// change after it was returned (e.g. because it aliases a shared buffer that a
+// later call overwrites).
+func execKeep(pool []*item, c Call) (string, func() string) {
+	var keep func() string
+	geomRes := func(t geom.T, err error) string {
+		if err == nil && t != nil {
+			keep = func() string { return canonGeom(t, nil) }
+		}
+		return canonGeom(t, err)
+	}
+	bytesRes := func(b []byte, err error) string {
+		if err == nil {
+			keep = func() string { return fmt.Sprintf("%x %v", b, nil) }
+		}
+		return fmt.Sprintf("%x %v", b, err)
+	}
+	_, _ = geomRes, bytesRes
+	return execInner(pool, c, geomRes, bytesRes), keep
+}
+
+func execInner(pool []*item, c Call, geomRes func(geom.T, error) string, bytesRes func([]byte, error) string) string {
 	a, b := pool[c.A%len(pool)], pool[c.B%len(pool)]
 	t := a.t
 	stride := t.Stride()
@@ -262,7 +289,7 @@ func exec(pool []*item, c Call) string {
 		case *geom.MultiLineString:
 			return canonGeom(r.Clone(), nil)
 		case *geom.MultiPolygon:
-			return canonGeom(r.Clone(), nil)
+			return geomRes(r.Clone(), nil)
 		}
 	case "Parts":
 		var sb strings.Builder
@@ -380,12 +407,12 @@ func exec(pool []*item, c Call) string {
 		if a.g.IsCollection() {
 			return "n/a"
 		}
-		return canonGeom(xy.ConvexHull(t), nil)
+		return geomRes(xy.ConvexHull(t), nil)
 	case "xy.ConvexHullFlat":
 		if a.flat == nil {
 			return "n/a"
 		}
-		return canonGeom(xy.ConvexHullFlat(t.Layout(), a.flat), nil)
+		return geomRes(xy.ConvexHullFlat(t.Layout(), a.flat), nil)
 	case "xy.Centroid":
 		// preconditions: non-empty, lines of positive length, polygons with a shell of >= 4 coordinates
 		if a.g.IsCollection() || a.g.Empty() || a.g.HasEmptyPart() {
@@ -413,11 +440,9 @@ func exec(pool []*item, c Call) string {
 		}
 		return fls(transform.UniqueCoords(t.Layout(), cmp2d{}, a.flat))
 	case "wkb.Marshal":
-		bts, err := wkb.Marshal(t, wkb.NDR, wkbcommon.WKBOptionEmptyPointHandling(wkbcommon.EmptyPointHandlingNaN))
-		return fmt.Sprintf("%x %v", bts, err)
+		return bytesRes(wkb.Marshal(t, wkb.NDR, wkbcommon.WKBOptionEmptyPointHandling(wkbcommon.EmptyPointHandlingNaN)))
 	case "ewkb.Marshal":
-		bts, err := ewkb.Marshal(t, ewkb.XDR)
-		return fmt.Sprintf("%x %v", bts, err)
+		return bytesRes(ewkb.Marshal(t, ewkb.XDR))
 	case "wkbhex.Encode":
 		s, err := wkbhex.Encode(t, wkbhex.XDR)
 		return fmt.Sprint(s, err)
@@ -474,12 +499,12 @@ func exec(pool []*item, c Call) string {
 		if a.wkb == nil {
 			return "n/a"
 		}
-		return canonGeom(wkb.Unmarshal(a.wkb, wkbcommon.WKBOptionEmptyPointHandling(wkbcommon.EmptyPointHandlingNaN)))
+		return geomRes(wkb.Unmarshal(a.wkb, wkbcommon.WKBOptionEmptyPointHandling(wkbcommon.EmptyPointHandlingNaN)))
 	case "ewkb.Unmarshal":
 		if a.ewkb == nil {
 			return "n/a"
 		}
-		return canonGeom(ewkb.Unmarshal(a.ewkb))
+		return geomRes(ewkb.Unmarshal(a.ewkb))
 	case "ewkb.Scan":
 		if a.ewkb == nil {
 			return "n/a"
@@ -494,14 +519,14 @@ func exec(pool []*item, c Call) string {
 		if a.wkt == "" {
 			return "n/a"
 		}
-		return canonGeom(wkt.Unmarshal(a.wkt))
+		return geomRes(wkt.Unmarshal(a.wkt))
 	case "geojson.Unmarshal":
 		if a.json == nil {
 			return "n/a"
 		}
 		var g geom.T
 		err := geojson.Unmarshal(a.json, &g)
-		return canonGeom(g, err)
+		return geomRes(g, err)
 	case "igc.Read":
 		if a.igc == nil {
 			return "n/a"
@@ -583,15 +608,24 @@ func prop(c Case) error {
 	}
 	// phase A: alone, one call at a time, arguments compared bitwise around every call
 	want := make([]string, len(c.Calls))
+	keeps := make([]func() string, len(c.Calls))
 	before := snapPool(pool)
 	for i, call := range c.Calls {
 		var res string
-		if err := run.Safe(func() error { res = exec(pool, call); return nil }); err != nil {
+		if err := run.Safe(func() error { res, keeps[i] = execKeep(pool, call); return nil }); err != nil {
 			return fmt.Errorf("call %d %+v: %v", i, call, err)
 		}
 		want[i] = res
 		if after := snapPool(pool); after != before {
 			return fmt.Errorf("call %d %+v modified its arguments or a package variable:\n%s", i, call, diffLine(before, after))
+		}
+	}
+	// results must not change after they were returned
+	for i, k := range keeps {
+		if k != nil {
+			if now := k(); now != want[i] {
+				return fmt.Errorf("the result of call %d %+v changed after it was returned (it aliases state that a later call modified):\n returned %s\n now      %s", i, c.Calls[i], clip(want[i]), clip(now))
+			}
 		}
 	}
 	// phase B: the same mix from many goroutines on the same pool
